@@ -61,8 +61,8 @@ def check_matrix(case, ctx):
             continue
         with warnings.catch_warnings():
             warnings.simplefilter('ignore')
-            X0 = R.make_context(sc, 'f64', 'clean')
-            XV = R.make_context(sc, rep, 'clean')
+            X0 = R.make_context(sc, 'f64', 'clean', coverage_mask=True)
+            XV = R.make_context(sc, rep, 'clean', coverage_mask=True)
         try:
             _, base = _run(name, X0)
         except Exception as exc:  # noqa: BLE001
@@ -105,10 +105,9 @@ def check_matrix(case, ctx):
             scale = float(np.nanmax(np.abs(a))) if a.size and np.isfinite(a).any() else 1.0
             if not np.allclose(a, b, rtol=rtol, atol=rtol * max(scale, 1e-12),
                                equal_nan=True):
-                if rep == 'float32' and name in ('centroid_1dg', 'centroid_2dg',
-                                                  'PSFPhotometry',
-                                                  'IterativePSFPhotometry',
-                                                  'data_properties'):
+                if rep == 'float32' and name.startswith((
+                        'centroid_1dg', 'centroid_2dg', 'PSFPhotometry',
+                        'IterativePSFPhotometry', 'data_properties')):
                     # iterative fits in reduced precision: 1e-3 is enough;
                     # parameter errors / fit-quality numbers come from an
                     # ill-conditioned numerical covariance and are skipped
